@@ -126,7 +126,7 @@ pub fn check_inst(x: &AInst, ctx: &[AInst], r: &mut Report, rp: &dyn Fn() -> Jso
 
 fn gen_with(rng: &mut Rng, op: usize, form: Form, forces: Vec<(K, u32)>, lit: LitStyle, s: Option<String>) -> Option<(Vec<AInst>, AInst, bool)> {
     let d = db();
-    let mut gen = Gen::new(1000);
+    let mut gen = Gen::with_id_policy(rng);
     gen.lit = lit;
     let ctx = context(&mut gen);
     gen.forces = forces;
@@ -292,6 +292,30 @@ pub fn run(cfg: &Cfg, rep: &mut Report) {
         }
     });
 
+    // ---- boundary sizes: instructions at the maximum word count, 64 KiB strings, many operands
+    run_stage(cfg, rep, "scale", cfg.n(24, 400), |idx, rng, r| {
+        let variant = [3u64, 3, 4, 1, 7, 7][(idx % 6) as usize];
+        let (label, insts) = crate::scale::scale_module(rng, variant);
+        let rp = || crate::util::replay_ref(cfg, "scale", idx).set("label", label.clone());
+        // context = every instruction before; the big instructions and the literal consumers are checked
+        // individually (with the whole preceding stream as context)
+        let mut ctx: Vec<AInst> = vec![];
+        let n_insts = insts.len();
+        for (pos, x) in insts.into_iter().enumerate() {
+            let consumer = matches!(x.opname().as_str(), "Switch" | "Constant" | "SpecConstant") && (variant == 7 || pos + 12 > n_insts);
+            if x.enc().len() > 64 || consumer {
+                let mut with_ctx = ctx.clone();
+                with_ctx.push(x.clone());
+                ctx = with_ctx;
+                let (c, _) = ctx.split_at(ctx.len() - 1);
+                if check_inst(&x, c, r, &rp, &format!("scale-{}", x.opname())) {
+                    r.nontrivial(format!("scale:{}:{}", x.opname(), x.enc().len()));
+                }
+            } else {
+                ctx.push(x);
+            }
+        }
+    });
     // ---- (F) random fill
     let n = cfg.n(150_000, 50_000_000);
     run_stage(cfg, rep, "random", n, |idx, rng, r| {
